@@ -302,6 +302,20 @@ def check(ctx: Ctx, col: Collector, tier: str) -> None:
                                         else "no registration of module stub paths",
                                         *([] if registered else ["the stub of a module is not registered as written: the placeholder stub of something taken for a class of another package (a NewType declared "
                                                                  "in that module) has the same path, is opened with 'w' and replaces the module's declarations"]))
+    # a module that a package re-exports as a whole is written under that package: the look-up has to identify the module, not only its last name
+    # (two sub-packages with a module `utils` each would otherwise be written to one path)
+    gsd = repo.function(GENSTUBS, "generate_stub_data")
+    col.touched(gsd)
+    reloc = [n for n in ast.walk(gsd.node) if isinstance(n, ast.Call) and getattr(n.func, "id", "") == "_get_shortest_public_reexport"
+             and any(k.arg == "is_module" and isinstance(k.value, ast.Constant) and k.value.value is True for k in n.keywords)]
+    for n in reloc:
+        qn = next((k.value for k in n.keywords if k.arg == "qname"), None)
+        identifies = qn is not None and not isinstance(qn, ast.Constant) and any(isinstance(x, ast.Attribute) and x.attr in ("id", "qname", "fullname") for x in ast.walk(qn))
+        (col.ok if identifies else col.bad)("C10.WRITE-MODE", f"{GENSTUBS}::generate_stub_data::module-relocation-names-the-module", repo.loc(GENSTUBS, n),
+                                            "the relocation look-up receives the module's id" if identifies else f"qname={ast.unparse(qn) if qn is not None else None}: the module is looked up by its last name only",
+                                            *([] if identifies else ["a module re-exported as a whole is identified by its bare name: with `pkg/a/__init__.py: from . import utils`, `pkg/a/utils.py` and "
+                                                                     "`pkg/b/utils.py` both stubs are written to pkg/a/utils.sdsstub - the functions of pkg.a.utils are lost and those of pkg.b.utils appear under `package pkg.a`"]))
+
     # module stubs are opened "w"
     modes = {e.args[0].v for o in souts for e in o.effects if e.kind == "call" and e.target.endswith(".open") and e.args and isinstance(e.args[0], Const)}
     (col.ok if modes == {"w"} else col.bad)("C10.WRITE-MODE", f"{GENSTUBS}::create_stub_files::module-stub-mode", repo.loc(GENSTUBS, sfi.node), f"module stubs opened with {sorted(modes)}",
